@@ -631,7 +631,9 @@ func (fr *frame) unop(instr *ssa.UnOp, x value) value {
 		if p == nil {
 			fr.i.rtPanic(fr, "invalid memory address or nil pointer dereference")
 		}
-		fr.i.preempt(fr, "load")
+		if al, isAlloc := instr.X.(*ssa.Alloc); !(isAlloc && !al.Heap) {
+			fr.i.preempt(fr, "load")
+		}
 		return load(deref(instr.X.Type()), p)
 	case token.NOT:
 		return boolNot(x)
